@@ -46,7 +46,7 @@ Plan array_gen(const std::string &check, const std::string &tier, uint64_t seed,
     g.maxdim = (int)rng.range(2, 5);
     g.maxf = (int)rng.range(1, 6);
     g.p_bad = rng.chance(0.25) ? 0 : rng.chance(0.5) ? 0.1 : 0.3;
-    if (c11) g.p_bad = 0.45;
+    if (c11) { g.p_bad = rng.chance(0.5) ? 0.45 : 0.25; plan.cfg["c11"] = 1; }
     if (c05 || c06) g.p_bad = rng.chance(0.5) ? 0 : 0.08;
     if (c12) { g.p_bad = 0; plan.cfg["strict_enomem"] = 1; }
     bool faults = check.find("faulty") != std::string::npos;
